@@ -3,12 +3,12 @@
 package zzverif
 
 import (
-	chf_context "github.com/free5gc/chf/internal/context"
-	"reflect"
 	"encoding/json"
 	"fmt"
+	chf_context "github.com/free5gc/chf/internal/context"
 	"net/url"
 	"os"
+	"reflect"
 	"sort"
 	"strconv"
 	"strings"
@@ -16,8 +16,8 @@ import (
 	"time"
 
 	"github.com/free5gc/openapi/models"
-	"github.com/jlaffaye/ftp"
 	"github.com/free5gc/util/mongoapi"
+	"github.com/jlaffaye/ftp"
 	"verif.local/vs"
 )
 
@@ -58,7 +58,7 @@ type Op struct {
 	V6     bool     `json:"v6,omitempty"`    // consumer identified by IPv6 address and FQDN instead of an IPv4 address
 	NoPSI  bool     `json:"nopsi,omitempty"` // create: pDUSessionChargingInformation without pduSessionInformation (rejected after the record counter moved)
 	OTE    string   `json:"ote,omitempty"`   // create: one-time event of this type (IEC / PEC); opens no session
-	Raw    string   `json:"raw,omitempty"` // raw JSON body override
+	Raw    string   `json:"raw,omitempty"`   // raw JSON body override
 	Path   string   `json:"path,omitempty"`
 	Method string   `json:"method,omitempty"`
 }
@@ -174,7 +174,7 @@ type Step struct {
 	Pre   *Snap      `json:"pre,omitempty"`
 	Post  *Snap      `json:"post,omitempty"`
 	Notes []Note     `json:"notes,omitempty"`
-	VT    int64      `json:"vtMs"` // virtual milliseconds the request took
+	VT    int64      `json:"vtMs"`        // virtual milliseconds the request took
 	H     string     `json:"h,omitempty"` // schedule fingerprint (enabled sets of every scheduling point so far) once the step is over
 }
 
